@@ -2,6 +2,8 @@ package main
 
 import (
 	"fmt"
+	"runtime/debug"
+	"runtime/pprof"
 	"os"
 	"time"
 
@@ -16,6 +18,7 @@ func main() {
 		fmt.Println("usage: gosym <cmd>")
 		os.Exit(2)
 	}
+	debug.SetGCPercent(400)
 	switch os.Args[1] {
 	case "check":
 		id := os.Args[2]
@@ -44,6 +47,11 @@ func main() {
 		checks.Only = only
 		os.Exit(checks.Execute(id, tier, seed, verbose))
 	case "probe":
+		if pf := os.Getenv("GOSYM_PROF"); pf != "" {
+			f, _ := os.Create(pf)
+			pprof.StartCPUProfile(f)
+			defer pprof.StopCPUProfile()
+		}
 		t0 := time.Now()
 		p, err := vm.Load("/repo", "/verif/harness", false)
 		if err != nil {
@@ -51,7 +59,7 @@ func main() {
 			os.Exit(2)
 		}
 		fmt.Println("loaded in", time.Since(t0))
-		s, err := sym.NewSolver("z3", sym.NewCtx(), 20000)
+		s, err := sym.NewSolverOpt(solverName(), sym.NewCtx(), 20000, os.Getenv("GOSYM_NOCORES") == "")
 		if err != nil {
 			fmt.Println(err)
 			os.Exit(2)
@@ -83,4 +91,11 @@ func main() {
 			fmt.Printf("VIOLATION %s %s inputs=%v observed=%v\n", v.Label, v.Info, v.Inputs, v.Observed)
 		}
 	}
+}
+
+func solverName() string {
+	if s := os.Getenv("GOSYM_SOLVER"); s != "" {
+		return s
+	}
+	return "z3"
 }
